@@ -77,10 +77,17 @@ def run_job(job, tier):
     wd = job.workdir()
     shutil.rmtree(wd, ignore_errors=True)
     os.makedirs(wd, exist_ok=True)
+    cov_holder = {}
+    th = None
+    if job.min_cover > 0:
+        import threading
+        th = threading.Thread(target=lambda: cov_holder.__setitem__('c', cbmc.cover(job, wd)))
+        th.start()
     res = cbmc.verify(job, wd)
     res.cover = (0, 0, [], '')
-    if res.status in ('ok', 'failed') and job.min_cover > 0:
-        res.cover = cbmc.cover(job, wd)
+    if th is not None:
+        th.join()
+        res.cover = cov_holder.get('c', (0, 0, [], 'cover thread failed'))
     # thorough: cross-check with a second SAT back end
     res.cross = None
     if tier == 'thorough' and res.status == 'ok':
